@@ -47,6 +47,10 @@ mod sys {
         feature = "tzdb-concatenated"
     ))]
     pub(crate) fn monotonic_time() -> Option<std::time::Instant> {
+        #[cfg(jiff_verif)]
+        if let Some(time) = crate::verif::monotonic_override() {
+            return time;
+        }
         // Same reasoning as above, but we return `None` instead of panicking,
         // because Jiff can deal with environments that don't provide
         // monotonic time.
